@@ -120,6 +120,8 @@ type c08wScen struct {
 	monMsg    string
 	allowLog  map[string]int
 	allowStat map[string]int
+	offLog    map[string]int // queries processed while configured off, allowed or not
+	offStat   map[string]int
 	forbidden int
 	via       string
 }
@@ -211,6 +213,10 @@ func (sc *c08wScen) query(spelled string, any bool, addr netip.Addr, cid string)
 		sc.cls["anon-on"] = true
 	} else {
 		sc.cls["anon-off"] = true
+		sc.offLog[norm+"|"+rec.String()+"|"+cid]++
+		if cid == "" {
+			sc.offStat[rec.String()]++
+		}
 	}
 	if sc.via != "" {
 		sc.cls["query-after-anon-switch-"+sc.via] = true
@@ -374,7 +380,7 @@ func c08wScenario(t *testing.T, out *vfOut, base string, n int, anon, refuse boo
 	}
 	sc := &c08wScen{t: t, dir: dir, cls: map[string]bool{}, anon: anon, everAnon: anon, refuse: refuse,
 		qRules: []string{"||ads.test^", "Mixed.Case.Test"}, sRules: []string{"Tracker.Example"},
-		allowLog: map[string]int{}, allowStat: map[string]int{}}
+		allowLog: map[string]int{}, allowStat: map[string]int{}, offLog: map[string]int{}, offStat: map[string]int{}}
 	config.DNS.BindHosts = []netip.Addr{netip.MustParseAddr("127.0.0.1")}
 	config.DNS.Port = 0
 	config.DNS.HostsFileEnabled = false
@@ -469,9 +475,9 @@ func c08wScenario(t *testing.T, out *vfOut, base string, n int, anon, refuse boo
 	}
 	sort.Strings(keys)
 	for _, k := range keys {
-		if stored[k] > sc.allowLog[k] && sc.everAnon {
+		if stored[k] > sc.offLog[k] {
 			if a, perr := netip.ParseAddr(strings.Split(k, "|")[1]); perr == nil && c08wMask(a) != a.Unmap() {
-				sc.fail("unmasked-address-in-querylog", fmt.Sprintf("querylog.json holds %d record(s) %s with the full client address; only %d such queries were processed while anonymisation was configured off", stored[k], k, sc.allowLog[k]))
+				sc.fail("unmasked-address-in-querylog", fmt.Sprintf("querylog.json holds %d record(s) %s with the full client address; only %d such queries (ignored or not) were processed while anonymisation was configured off", stored[k], k, sc.offLog[k]))
 			}
 		}
 	}
@@ -499,10 +505,10 @@ func c08wScenario(t *testing.T, out *vfOut, base string, n int, anon, refuse boo
 		for k, cnt := range m {
 			if a, perr := netip.ParseAddr(k); perr == nil {
 				clis = append(clis, "("+vfBytes("")+", "+vfBytes(string(a.AsSlice()))+", "+vfN(cnt)+")")
+				if int(cnt) > sc.offStat[a.String()] && c08wMask(a) != a.Unmap() {
+					sc.fail("unmasked-client-in-stats", fmt.Sprintf("statistics hold %d queries under the full client address %s; only %d such queries (ignored or not) were processed while anonymisation was configured off", cnt, k, sc.offStat[a.String()]))
+				}
 				if int(cnt) > sc.allowStat[a.String()] {
-					if sc.everAnon && c08wMask(a) != a.Unmap() {
-						sc.fail("unmasked-client-in-stats", fmt.Sprintf("statistics hold %d queries under the full client address %s; only %d such queries were processed while anonymisation was configured off", cnt, k, sc.allowStat[a.String()]))
-					}
 					sc.fail("forbidden-client-in-stats", fmt.Sprintf("statistics count %d queries for client %q; only %d may be counted", cnt, k, sc.allowStat[a.String()]))
 				}
 			} else {
@@ -521,7 +527,8 @@ func c08wScenario(t *testing.T, out *vfOut, base string, n int, anon, refuse boo
 		" " + c08wBytesList(sc.sRules) + " " + c08wTable(sc.sRules)
 	coq := "(CScen " + head + " " + vfList("bytes * bytes", nil) + " " + vfList("sev", sc.evs) + " " +
 		vfList("bytes * bytes * bytes", nil) + " " + vfList("bytes * bytes * bytes", fileItems) + " " +
-		vfList("bytes * N", doms) + " " + vfList("bytes * bytes * N", clis) + " " + vfN(resp.Num) + ")"
+		vfList("bytes * N", doms) + " " + vfList("bytes * bytes * N", clis) + " " + vfN(resp.Num) + " " +
+		vfOpt("list (list (bytes * bytes * N) * list (bytes * N) * N)", false, "") + ")"
 	var classes []string
 	for c := range sc.cls {
 		classes = append(classes, c)
